@@ -215,7 +215,22 @@ def run_oracles(prog, meta, sessions):
                     if all('abort' not in x for x in s.fresh_all):
                         suffix, why = stale_owner_status(s, k, prev_nodes)
                         if genuine_hidden_read(s, k, shadow): continue
-                        if is_bu: suffix += '-bottom-up'      # the recorded role-inversion findings are top-down patterns
+                        if is_bu:
+                            # the recorded role-inversion findings are top-down patterns; bottom-up, the dependency order protects a
+                            # task from the stale dependencies of the tasks it (still, as recorded) depends on: those run first.  What it
+                            # cannot protect from is a stale dependency of a task the executing one is NOT related to -- O5a, bottom-up
+                            suffix += '-bottom-up'
+                            if k == 'overlap' and s.events and s.events[-1].split()[0] == 'wS':
+                                opened = []
+                                for e in s.events:
+                                    f = e.split()
+                                    if f[0] == 'XS': opened.append('T' + f[1])
+                                    elif f[0] == 'XE' and opened: opened.pop()
+                                cur_t = opened[-1] if opened else None
+                                olds = [src for (kk, src) in prev_nodes.get('R' + s.events[-1].split()[1], {}).get('ins', []) if kk == 'W']
+                                if cur_t and olds and not any(o in P.reach(prev_nodes, cur_t) for o in olds):
+                                    suffix += '-unrelated-writers'
+                                    why += ' (no recorded dependency leads from the executing task %s to the recorded writer %s: the build has no order to run the old writer first)' % (cur_t, ','.join(olds))
                         out.append(('C20', 'spurious-' + k + suffix, '%s: incremental build aborted with %s but from-scratch builds of all known tasks (two orders) in the current state succeed%s' % (where, k, why)))
                 elif had_abort and s.fresh_all is not None and prog.kind in ('inject', 'panic'):
                     # C19: after an abort, a later build may abort again only for a violation that still exists
